@@ -128,7 +128,7 @@ class ShardCtx:
         if sig in self.findings:
             self.known_hits[sig] += 1
             self.known_examples.setdefault(sig, what)
-            return
+            return True
         v = Violation(sig, what, jsonable(case))
         self._last_violation = v
         raise v
